@@ -28,7 +28,10 @@ ID = "C06"
 GEN_DEPENDS = ["PyBits", "C06Kernels"]
 RULE = ("operation histories (<= 14 ops) over 2-5 TreeArrays built from random trees (3-7 taxa, polytomies, basal "
         "bifurcations, None lengths, weights, ultrametric trees with node ages): add (add_tree / append / add_trees)/insert(any index)/update/extend/+=/+ "
-        "incl. empties, self-merges, reading several sources in one call (paths, handles, one string) with a burn-in, both rootings, explicit and implicit rooting, matching and mismatching settings, with interim "
+        "incl. empties, self-merges; SETTINGS EQUAL BY VALUE BUT DISTINCT OBJECTS: in ~40% of the histories (and half of the partition cases) every collection gets its "
+        "ultrametricity_precision as a fresh object of one value (parsed from text, computed, equal int / Fraction), node ages tracked (ultrametric dyadic trees) in "
+        "~45%, and ~30% of the merge sources travel through a pickle round trip or a deep copy before merging; in the schedule simulator every worker result is pickled "
+        "and unpickled as through the real results queue, node ages tracked in ~40% of the schedule cases with a per-case fresh precision; reading several sources in one call (paths, handles, one string) with a burn-in, both rootings, explicit and implicit rooting, matching and mismatching settings, with interim "
         "summaries (consensus / MCC / summarize_splits_on_tree / restore_tree / the per-split summary tables in either order / "
         "frequencies) between the additions, and the same trees built one at a time next to the merged master; at the end every "
         "array's per-split edge-length and node-age summaries (tables and target-tree annotations: mean, median, sd, range) are read "
@@ -37,7 +40,8 @@ RULE = ("operation histories (<= 14 ops) over 2-5 TreeArrays built from random t
         "than files, no file at all, files entirely swallowed by the burn-in); the model receives the complete files and applies the burn-in in "
         "its own reading loop; thorough adds every "
         "schedule for <= 3 files x <= 4 workers, every partition/arrival order of <= 4 trees into <= 3 parts, and real "
-        "multi-process CLI runs (-M, -m 2, -m 3, five times each, every other one pinned to one CPU); schedules with asynchronous "
+        "multi-process CLI runs (-M, -m 2, -m 3, five times each, every other one pinned to one CPU; plus three configurations with "
+        "--summarize-node-ages --ultrametricity-precision 0.0001, three times each); schedules with asynchronous "
         "delivery of the work items (interleavings of deliveries and worker queue operations on the real worker code, sampled in both tiers; "
         "about a third of them over sources of MIXED rooting (per-tree [&R]/[&U] tokens, inside one file or between files), where a read fails "
         "in a worker, the exception is posted and re-raised: files read by each worker, what each worker posts first, the parent's and the serial "
@@ -63,6 +67,8 @@ MODELLED_NOT_VERIFIED = [
     "C06: the list-interface methods that raise NotImplementedError (__delitem__, __getitem__, __setitem__, clear, index, pop, remove, reverse, "
     "sort, __reversed__) and the read-only queries __contains__/__iter__/__len__/topologies/bipartition_encoding_frequencies are not operations "
     "of the model (the harness calls the per-tree queries after every history)",
+    "C06: settings are documented as bool / None / number; ints given for the boolean flags (0/1) are outside the generated domain: the unchanged code "
+    "compares the flags with `is not`, so ignore_edge_lengths=0 and ignore_edge_lengths=False do not merge (observed by hand, not judged)",
     "C06: credibility scores are exact products in the model and float log-sums in the code (compared to 1e-9; the maximiser's "
     "topology is compared only when the exact maximiser is unique by a 1e-9 margin)",
 ]
@@ -98,6 +104,9 @@ EXPLANATION = ("Theorems (Props/C06.lean) about the definitions drv_c06 runs: al
                ">= 1 workers incl. more workers than files and no file: returns, never fails, serial observable, for sources of one rooting state). "
                "Tie A bridges to Gen/C06Kernels.lean (regenerated from treecollectionmodel.py and sumtrees.py on every run): update_bridge, validate_bridge, "
                "weight_bridge, accession_bridge, qualifies_bridge, argmax_bridge, readStep_bridge, readLoop_cons, proto_bridge, runsSerial_bridge. "
+               "search() (run when tie A is unavailable, an obligation broke or the correspondence disagreed) starts with 96 histories of collections whose "
+               "settings are equal by value but distinct objects (every merge op, direct / pickled / deep-copied source, node ages tracked), then the merge decision "
+               "table, burn-in reads, small exhaustive schedules incl. node ages, and one genuine multi-process CLI run with --summarize-node-ages. "
                "Not proved: that a parallel run over sources of mixed rooting fails under EVERY schedule whenever the serial run fails (correspondence only).")
 
 ASYNC_IN_QUICK = True           # asynchronous-delivery schedules are explored in both tiers
@@ -639,6 +648,51 @@ def summaries_wrong(late, exp):
     return None
 
 
+
+# ======================================================================================= settings equal by value, distinct objects
+PRECISION_CLASSES = {            # value class -> ways to come by an object of that value (every call makes a NEW object)
+    "1e-05": ["parse:1e-05", "parse:0.00001", "mul:1e-05"],
+    "0.0001": ["parse:0.0001", "mul:0.0001", "parse:1e-4"],
+    "1/4": ["parse:0.25", "frac:1/4", "mul:0.25"],
+    "1": ["int:1", "parse:1.0", "frac:1", "mul:1.0"],
+}
+
+
+def fresh_precision(form):
+    """an `ultrametricity_precision` given per collection: parsed from text, computed, or an equal int / Fraction"""
+    kind, v = form.split(":")
+    if kind == "parse":
+        return float(v)
+    if kind == "mul":
+        return float(v) * float("1.0")
+    if kind == "int":
+        return int(v)
+    return Fraction(v)
+
+
+def transport(ta, tns, via):
+    """what happens to a collection between being built and being merged: nothing, a pickle round trip (as through the
+    results queue of the worker protocol; the namespace object stays shared) or a deep copy"""
+    if via == "pickle":
+        import io
+        import pickle
+        buf = io.BytesIO()
+
+        class P(pickle.Pickler):
+            def persistent_id(self, obj):
+                return "tns" if obj is tns else None
+
+        class U(pickle.Unpickler):
+            def persistent_load(self, pid):
+                return tns
+        P(buf, pickle.HIGHEST_PROTOCOL).dump(ta)
+        buf.seek(0)
+        return U(buf).load()
+    if via == "deepcopy":
+        import copy
+        return copy.deepcopy(ta, {id(tns): tns})
+    return ta
+
 # ======================================================================================= histories
 def err_name(e):
     n = type(e).__name__
@@ -794,10 +848,14 @@ def exec_history(ctx, dendropy, case):
         try:
             with time_limit(20):
                 if name == "new":
-                    _, r, il, ia, uw = op
+                    r, il, ia, uw = op[1:5]
                     line += ["new", R(r), str(il), str(ia), str(uw)]
+                    kw = {}
+                    if len(op) > 5 and op[5]:
+                        kw["ultrametricity_precision"] = fresh_precision(op[5])     # equal by value across the history, a new object each
+                        ctx.count("new: ultrametricity_precision as a fresh object (%s)" % op[5].split(":")[0])
                     regs.append(TA(taxon_namespace=tns, is_rooted_trees=r, ignore_edge_lengths=bool(il),
-                                   ignore_node_ages=bool(ia), use_tree_weights=bool(uw)))
+                                   ignore_node_ages=bool(ia), use_tree_weights=bool(uw), **kw))
                     oracle.append(Reg(r, [il, ia, uw]))
                 elif name in ("add", "ins"):
                     d = op[1]
@@ -826,15 +884,19 @@ def exec_history(ctx, dendropy, case):
                     o.trees = o_after
                 elif name in ("upd", "ext", "iadd"):
                     d, s = op[1], op[2]
+                    via = op[3] if len(op) > 3 else None
                     line += [name, str(d), str(s)]
                     must = merge_must_succeed(oracle[d], oracle[s])
+                    src = transport(regs[s], tns, via)
+                    if via:
+                        ctx.count("merge source sent through %s%s" % (via, " (node ages tracked)" if not oracle[s].flags[1] else ""))
                     if name == "upd":
-                        regs[d].update(regs[s])
+                        regs[d].update(src)
                     elif name == "ext":
-                        regs[d].extend(regs[s])
+                        regs[d].extend(src)
                     else:
                         x = regs[d]
-                        x += regs[s]
+                        x += src
                         regs[d] = x
                     od, os_ = oracle[d], oracle[s]
                     if os_.trees:
@@ -855,7 +917,8 @@ def exec_history(ctx, dendropy, case):
                     tmp = Reg(decl, oa.flags)
                     tmp.trees = list(oa.trees)
                     must = homogeneous(oa.trees)[0] and not oa.asserted and merge_must_succeed(tmp, ob)
-                    c = regs[a] + regs[b]
+                    via = op[3] if len(op) > 3 else None
+                    c = regs[a] + transport(regs[b], tns, via)
                     regs.append(c)
                     if ob.trees and not tmp.trees:
                         tmp.flags = list(ob.flags)
@@ -1168,9 +1231,16 @@ def gen_history(rng, max_taxa=7, max_ops=14):
         rootings = [None]
     else:
         rootings = rng.choice([[True, False], [None, True], [None, False], [True, False, None]])
-    ages_mode = rng.random() < 0.25
+    prec_class = rng.choice(sorted(PRECISION_CLASSES)) if rng.random() < 0.4 else None
+    ages_mode = rng.random() < (0.7 if prec_class else 0.3)
     weights_mode = rng.random() < 0.4
     mismatch = rng.random() < 0.22
+
+    def prec():
+        return [rng.choice(PRECISION_CLASSES[prec_class])] if prec_class else []
+
+    def via():
+        return [rng.choice(["pickle", "pickle", "deepcopy"])] if rng.random() < 0.3 else []
     base = [0 if ages_mode or rng.random() < 0.8 else 1, 0 if ages_mode else 1, 1 if weights_mode or rng.random() < 0.7 else 0]
     subsets = rng.random() < 0.1
     tie_mode = rng.random() < 0.15      # two topologies per rooting state, repeated: exact frequency ties
@@ -1214,7 +1284,7 @@ def gen_history(rng, max_taxa=7, max_ops=14):
         return rng.choice([True, False])
 
     nreg = rng.randint(2, 4)
-    ops = [["new", decl(), *flags()] for _ in range(nreg)]
+    ops = [["new", decl(), *flags(), *prec()] for _ in range(nreg)]
     reg_root.extend(rng.choice(rootings) for _ in range(nreg))
     nops = rng.randint(3, max_ops)
     count = nreg
@@ -1231,7 +1301,7 @@ def gen_history(rng, max_taxa=7, max_ops=14):
         elif x < 0.85:
             d = rng.randrange(count)
             s = rng.randrange(count) if rng.random() < 0.92 else d
-            ops.append([rng.choice(["upd", "upd", "ext", "iadd"]), d, s])
+            ops.append([rng.choice(["upd", "upd", "ext", "iadd"]), d, s, *via()])
             sizes[d] += sizes[s]
         elif x < 0.89:
             # several sources read in one call, with a burn-in that every source loses
@@ -1247,28 +1317,29 @@ def gen_history(rng, max_taxa=7, max_ops=14):
             ops.append(["q", rng.randrange(count), rng.choice(["cons", "mcc", "summarize", "props_ea", "props_ae", "freq", "restore"])])
         elif x < 0.97 and count < 6:
             a, b = rng.randrange(count), rng.randrange(count)
-            ops.append(["plus", a, b])
+            ops.append(["plus", a, b, *via()])
             sizes.append(sizes[a] + sizes[b])
             reg_root.append(reg_root[a])
             count += 1
         elif count < 6:
-            ops.append(["new", decl(), *flags()])
+            ops.append(["new", decl(), *flags(), *prec()])
             sizes.append(0)
             reg_root.append(rng.choice(rootings))
             count += 1
     return {"mode": "hist", "ntaxa": ntaxa, "ops": ops}
 
 
-def partition_history(specs, flags, decl, parts, arrival, merge_op, master_decl):
-    """build sub-collections `parts` (lists of tree indices, possibly empty), merge them in `arrival` order into a master"""
-    ops = [["new", master_decl, *flags]]
-    for _ in parts:
-        ops.append(["new", decl, *flags])
+def partition_history(specs, flags, decl, parts, arrival, merge_op, master_decl, precs=None, vias=None):
+    """build sub-collections `parts` (lists of tree indices, possibly empty), merge them in `arrival` order into a master;
+    `precs`: one ultrametricity-precision form per collection (master first), `vias`: how each part travels to the master"""
+    ops = [["new", master_decl, *flags] + ([precs[0]] if precs else [])]
+    for k, _ in enumerate(parts):
+        ops.append(["new", decl, *flags] + ([precs[k + 1]] if precs else []))
     for k, part in enumerate(parts):
         for j in part:
             ops.append(["add", k + 1, "add_tree", specs[j]])
     for k in arrival:
-        ops.append([merge_op, 0, k + 1])
+        ops.append([merge_op, 0, k + 1] + ([vias[k]] if vias and vias[k] else []))
     return ops
 
 
@@ -1317,6 +1388,12 @@ class FakeQueue(object):
         if w is None:
             self.inflight.append(x)
         else:
+            # what a worker posts reaches the parent pickled and unpickled (multiprocessing.Queue): equal settings arrive as new objects
+            try:
+                import pickle
+                x = pickle.loads(pickle.dumps(x, pickle.HIGHEST_PROTOCOL))
+            except Exception:   # noqa
+                self.sim.unpicklable += 1
             self.results.append((w, x))
 
     put_nowait = put
@@ -1406,6 +1483,7 @@ class Sim(object):
         self.used_block = False  # some worker waited in a blocking get(): the end-marker protocol
         self.trace = []          # (chosen index, number of enabled actions)
         self.deadlock = False
+        self.unpicklable = 0     # results that could not be pickled (handed over as they are)
 
     def current_worker(self):
         return self.by_thread.get(self.threading.get_ident())
@@ -1506,7 +1584,7 @@ def choice_policy(choices):
 
 
 def run_parallel(dendropy, sumtrees, files, nworkers, assignment, arrival, rooted, tns, use_weights=True, flags=(0, 1, 1),
-                 choices=None, sim_out=None, burnin=0, logfreq=0):
+                 choices=None, sim_out=None, burnin=0, logfreq=0, prec="parse:0.0001"):
     sim = Sim(choice_policy(choices) if choices is not None else assignment_policy(assignment), arrival)
     if sim_out is not None:
         sim_out.append(sim)
@@ -1532,7 +1610,7 @@ def run_parallel(dendropy, sumtrees, files, nworkers, assignment, arrival, roote
     patch(real_mp.Process, "is_alive", lambda self: False)
     try:
         tp = sumtrees.TreeProcessor(is_source_trees_rooted=rooted, ignore_edge_lengths=bool(flags[0]), ignore_node_ages=bool(flags[1]),
-                                    use_tree_weights=use_weights, ultrametricity_precision=0.0001, taxon_label_age_map=None,
+                                    use_tree_weights=use_weights, ultrametricity_precision=fresh_precision(prec), taxon_label_age_map=None,
                                     num_processes=nworkers, log_frequency=logfreq, messenger=None, debug_mode=True)
         return tp.parallel_analyze_trees(tree_sources=files, schema="newick", taxon_namespace=tns, tree_offset=burnin)
     finally:
@@ -1546,9 +1624,9 @@ def run_parallel(dendropy, sumtrees, files, nworkers, assignment, arrival, roote
                     pass
 
 
-def run_serial(dendropy, sumtrees, files, rooted, tns, use_weights=True, flags=(0, 1, 1), burnin=0, logfreq=0):
+def run_serial(dendropy, sumtrees, files, rooted, tns, use_weights=True, flags=(0, 1, 1), burnin=0, logfreq=0, prec="parse:0.0001"):
     tp = sumtrees.TreeProcessor(is_source_trees_rooted=rooted, ignore_edge_lengths=bool(flags[0]), ignore_node_ages=bool(flags[1]),
-                                use_tree_weights=use_weights, ultrametricity_precision=0.0001, taxon_label_age_map=None,
+                                use_tree_weights=use_weights, ultrametricity_precision=fresh_precision(prec), taxon_label_age_map=None,
                                 num_processes=1, log_frequency=logfreq, messenger=None, debug_mode=True)
     return tp.serial_analyze_trees(files, "newick", taxon_namespace=tns, tree_offset=burnin)
 
@@ -1613,7 +1691,7 @@ def exec_sched(ctx, dendropy, case, sf=None, serial_cache=None):
             with time_limit(60):
                 par = run_parallel(dendropy, sumtrees, sf.paths, nw, case.get("assignment"), case["arrival"], src,
                                    dendropy.TaxonNamespace(labels), bool(uw), flags, choices=case.get("choices"), sim_out=sims,
-                                   burnin=burnin, logfreq=logfreq)
+                                   burnin=burnin, logfreq=logfreq, prec=case.get("prec", "parse:0.0001"))
         except Exception as e:   # noqa
             perr = e
         # which worker actually read which file (nw = nobody: the file was dropped)
@@ -1663,7 +1741,8 @@ def exec_sched(ctx, dendropy, case, sf=None, serial_cache=None):
         else:
             try:
                 with time_limit(60):
-                    ser = run_serial(dendropy, sumtrees, sf.paths, src, dendropy.TaxonNamespace(labels), bool(uw), flags, burnin, logfreq)
+                    ser = run_serial(dendropy, sumtrees, sf.paths, src, dendropy.TaxonNamespace(labels), bool(uw), flags, burnin, logfreq,
+                                     prec=case.get("prec", "parse:0.0001"))
             except Exception as e:   # noqa
                 serr = e
             if serial_cache is not None:
@@ -1746,6 +1825,11 @@ def exec_sched(ctx, dendropy, case, sf=None, serial_cache=None):
                   [[s["toks"] for s in f] for f in case["files"]]], idle > 0 or len(set(realised)) > 1,
                  sample=dict(case, files="<%s trees>" % [len(f) for f in case["files"]]), kind="sched-async" if is_async else "sched")
         ctx.count("sched%s idle=%d" % ("-async" if is_async else "", idle))
+        if not flags[1]:
+            ctx.count("sched node ages tracked, results pickled through the queue, >= 2 non-empty results" if len(set(a for a in realised if a < nw)) > 1
+                      else "sched node ages tracked")
+        if sims and sims[0].unpicklable:
+            ctx.count("sched a posted result could not be pickled")
         ctx.count("sched files=%d%s" % (len(case["files"]), " (more workers than files)" if nw > len(case["files"]) else ""))
         if burnin and any(len(f) <= burnin for f in case["files"]):
             ctx.count("sched a file entirely burnt in")
@@ -1836,10 +1920,12 @@ def compare_async(ctx, case, results, canons, out):
             ctx.disagree("async: outcome of the serial run over the same sources", case, results[1], mser)
 
 
-def gen_sched_files(rng, nfiles, max_taxa=6, max_trees=3, allow_empty_file=False):
+def gen_sched_files(rng, nfiles, max_taxa=6, max_trees=3, allow_empty_file=False, force_ages=None):
     ntaxa = rng.randint(4, max_taxa)
     weights = rng.random() < 0.4
-    ages = rng.random() < 0.2
+    ages = rng.random() < 0.4
+    if force_ages is not None:
+        ages = force_ages
     ties = rng.random() < 0.3          # few distinct topologies, each repeated: exact frequency ties between conflicting splits
     flags = [0 if ages or rng.random() < 0.75 else 1, 0 if ages else 1, 1 if weights or rng.random() < 0.6 else 0]
     files = []
@@ -1871,7 +1957,8 @@ def gen_sched_files(rng, nfiles, max_taxa=6, max_trees=3, allow_empty_file=False
     # burn-in (every source loses its first trees) and the two reading loops of the serial run (quiet / with progress logging)
     burnin = rng.choice([0, 0, 1, 1, 2])
     return {"mode": "sched", "ntaxa": ntaxa, "files": files, "rooted": rooted, "token": token, "flags": flags,
-            "burnin": burnin, "logfreq": rng.choice([0, 0, 1, 3])}
+            "burnin": burnin, "logfreq": rng.choice([0, 0, 1, 3]),
+            "prec": rng.choice(PRECISION_CLASSES[rng.choice(["1e-05", "0.0001", "1/4"])])}
 
 
 def next_choices(trace):
@@ -1967,6 +2054,9 @@ def exec_cli(ctx, dendropy, case):
             out = os.path.join(sf.dir, "out-%s.tre" % name)
             args = list(sf.paths) + ["-i", "newick", "-o", out, "-F", "newick", "-q", "--no-analysis-metainformation", "-r",
                                      "--weighted-trees", "-b", str(case.get("burnin", 0))] + extra
+            if case.get("cli_ages"):
+                # every worker process parses its own copy of the precision; its array comes back pickled
+                args += ["--summarize-node-ages", "--ultrametricity-precision", "0.0001"]
             if case["rooted"] is True:
                 args.append("--rooted")
             elif case["rooted"] is False:
@@ -1979,7 +2069,8 @@ def exec_cli(ctx, dendropy, case):
                 t = dendropy.Tree.get(path=out, schema="newick", taxon_namespace=tns, rooting="force-rooted" if case["rooted"] else "force-unrooted")
                 t.encode_bipartitions()
                 outs[name] = ("ok", {nd.edge.bipartition.split_bitmask: (nd.label, nd.edge.length) for nd in t.postorder_node_iter()})
-        ctx.case(["cli", case["mp"], case["rooted"], case["token"], [[s["toks"] for s in f] for f in case["files"]]], True, kind="cli")
+        ctx.case(["cli", case["mp"], case.get("cli_ages"), case["rooted"], case["token"], [[s["toks"] for s in f] for f in case["files"]]], True, kind="cli")
+        ctx.count("cli %s%s" % (" ".join(case["mp"]), " --summarize-node-ages --ultrametricity-precision" if case.get("cli_ages") else ""))
         if outs["serial"][0] != "ok":
             ctx.note("cli: serial sumtrees run failed: %s" % outs["serial"][1])
             return
@@ -2076,7 +2167,7 @@ def gen_partition_case(rng, ntrees=None, nparts=None):
     r = rng.choice([True, False])
     ntrees = ntrees if ntrees is not None else rng.randint(1, 6)
     nparts = nparts if nparts is not None else rng.randint(1, 4)
-    ages = rng.random() < 0.25
+    ages = rng.random() < 0.45
     wts = rng.random() < 0.4
     flags = [0 if ages or rng.random() < 0.8 else 1, 0 if ages else 1, 1]
     specs = [gen_spec(rng, list(range(ntaxa)), r, ultrametric=ages, none_rate=rng.choice([0.0, 0.3]),
@@ -2095,11 +2186,17 @@ def gen_partition_case(rng, ntrees=None, nparts=None):
         parts[rng.randrange(nparts)].append(j)
     arrival = rng.sample(range(nparts), nparts)
     decl = rng.choice([None, None, r])
-    ops = partition_history(specs, flags, decl, parts, arrival, rng.choice(["upd", "ext", "iadd"]), rng.choice([None, decl]))
+    precs = vias = None
+    if rng.random() < 0.5:
+        forms = PRECISION_CLASSES[rng.choice(sorted(PRECISION_CLASSES))]
+        precs = [rng.choice(forms) for _ in range(nparts + 1)]
+    if rng.random() < 0.5:
+        vias = [rng.choice([None, "pickle", "pickle", "deepcopy"]) for _ in range(nparts)]
+    ops = partition_history(specs, flags, decl, parts, arrival, rng.choice(["upd", "ext", "iadd"]), rng.choice([None, decl]), precs, vias)
     if rng.random() < 0.6:
         # the same trees once more, ONE AT A TIME with interim summaries between the additions: must agree with the merged master
         reg = 1 + len(parts)
-        ops.append(["new", decl, *flags])
+        ops.append(["new", decl, *flags] + ([precs[0]] if precs else []))
         for sp in specs:
             ops.append(["add", reg, rng.choice(["append", "add_tree"]), sp])
             for _ in range(rng.randint(0, 2)):
@@ -2195,10 +2292,10 @@ def thorough(ctx, dendropy, pending):
     exhaustive_async(ctx, dendropy, pending, ((2, 2, False), (1, 3, False)), adone, 150)
     ctx.extra["exhaustive_async"] = "; ".join(adone)
     # (3) genuine multi-process runs of the command-line program, each repeated (scheduling differs from run to run)
-    for mp in (["-M"], ["-m", "2"], ["-m", "3"]):
-        base = gen_sched_files(rng, rng.choice([2, 3]), max_taxa=5, max_trees=2, allow_empty_file=False)
-        base.update(mode="cli", mp=mp, rooted=None, token=None, flags=[0, 1, 1])
-        for rep_ in range(5):
+    for mp, ages in ((["-M"], False), (["-m", "2"], True), (["-m", "3"], False), (["-M"], True), (["-m", "3"], True)):
+        base = gen_sched_files(rng, rng.choice([2, 3]), max_taxa=5, max_trees=2, allow_empty_file=False, force_ages=ages)
+        base.update(mode="cli", mp=mp, rooted=True if ages else None, token=None, flags=[0, 0 if ages else 1, 1], cli_ages=ages)
+        for rep_ in range(5 if not ages else 3):
             if ctx.time_left() < 30:
                 break
             try:
@@ -2245,6 +2342,26 @@ def burnin_cases():
     return out
 
 
+def fresh_settings_cases():
+    """collections with identical settings given as DIFFERENT objects of equal value (ultrametricity precision parsed, computed,
+    int / Fraction), with node ages tracked, merged by every operation, directly and after a pickle round trip / deep copy"""
+    def ultra(a, b, c, d):
+        # ((a,b),(c,d)) with leaf ages 0, cherries at 1, root at 2 (dyadic, exactly ultrametric)
+        return {"toks": ("7 -1 0 1 1 0 4 4 - - %d %d - %d %d N 1 1 1 1 1 1 - - - - - - -" % (a, b, c, d)).split(), "rooted": True, "weight": None}
+    t, u = ultra(0, 1, 2, 3), ultra(0, 2, 1, 3)
+    out = []
+    for cls in sorted(PRECISION_CLASSES):
+        forms = PRECISION_CLASSES[cls]
+        for op in ("upd", "ext", "iadd", "plus"):
+            for via in (None, "pickle", "deepcopy"):
+                for il in (0, 1):
+                    ops = [["new", None, il, 0, 1, forms[0]], ["new", True, il, 0, 1, forms[1 % len(forms)]], ["new", None, il, 0, 1, forms[-1]],
+                           ["add", 0, "add_tree", t], ["add", 1, "add_tree", u], ["add", 1, "append", t], ["add", 2, "add_tree", u],
+                           [op, 0, 1] + ([via] if via else []), [op, 2, 0] + ([via] if via else []), [op, 0, 0] + ([via] if via else [])]
+                    out.append({"mode": "hist", "ntaxa": 4, "ops": ops})
+    return out
+
+
 def search(ctx, broken):
     """an obligation broke (a kernel regenerated from the source no longer equals the model's, the generator met source outside
     its subset, a theorem no longer builds) or the model and the code disagreed: look for an input on which the real code
@@ -2253,18 +2370,19 @@ def search(ctx, broken):
     dendropy = __import__("dendropy")
     pending = []
     before = len(ctx.failures)
-    for case in decision_table_cases() + burnin_cases():
+    for case in fresh_settings_cases() + decision_table_cases() + burnin_cases():
         run_hist_case(ctx, dendropy, case, pending, "search")
         if len(pending) >= 200:
             flush(ctx, pending)
     flush(ctx, pending)
-    ctx.count("search: decision table + burn-in histories")
+    ctx.count("search: fresh-object settings + decision table + burn-in histories")
     if len(ctx.failures) > before:
         return
     rng = ctx.rng
-    for nfiles, nw, mixed in ((1, 2, False), (2, 2, False), (0, 2, False), (2, 2, True), (1, 3, False), (2, 3, False)):
-        base = gen_sched_files(rng, nfiles, max_taxa=5, max_trees=2)
-        base.update(rooted=None, token=None, burnin=nfiles % 2)
+    for nfiles, nw, mixed in ((2, 2, "ages"), (1, 2, False), (2, 2, False), (0, 2, False), (2, 2, True), (1, 3, False), (2, 3, False)):
+        base = gen_sched_files(rng, nfiles, max_taxa=5, max_trees=2, force_ages=(mixed == "ages"))
+        base.update(rooted=None, token=None, burnin=nfiles % 2 if mixed != "ages" else 0)
+        mixed = mixed is True
         if mixed:
             base = mix_rootings(rng, base)
             base["ftokens"] = [["R"] * len(f) if i == 0 else ["U"] * len(f) for i, f in enumerate(base["files"])]
@@ -2274,6 +2392,13 @@ def search(ctx, broken):
         if len(ctx.failures) > before:
             return
     ctx.extra.pop("_last_trace", None)
+    # a genuine multi-process run with node ages and an explicit precision against the serial run
+    base = gen_sched_files(rng, 2, max_taxa=5, max_trees=2, force_ages=True)
+    base.update(mode="cli", mp=["-m", "2"], rooted=True, token=None, flags=[0, 0, 1], cli_ages=True, burnin=0)
+    try:
+        exec_cli(ctx, dendropy, base)
+    except subprocess.TimeoutExpired:
+        ctx.note("search: cli run timed out")
 
 
 def replay(ctx, rec):
